@@ -2430,7 +2430,24 @@ setattr_trait(
             tnotifiers = traito->notifiers;
             onotifiers = obj->notifiers;
             if ((tnotifiers != NULL) || (onotifiers != NULL)) {
-                value = traito->getattr(traito, obj, name);
+                if (traito->getattr == getattr_trait) {
+                    /* Materialize the default as getattr_trait does, but
+                       without its (Uninitialized -> default) notification:
+                       the change is announced below, exactly once. */
+                    value = default_value_for(traito, obj, name);
+                    if ((value != NULL)
+                        && ((PyDict_SetItem(dict, name, value) < 0)
+                            || ((traito->post_setattr != NULL)
+                                && (traito->post_setattr(
+                                        traito, obj, name, value)
+                                    < 0)))) {
+                        Py_DECREF(value);
+                        value = NULL;
+                    }
+                }
+                else {
+                    value = traito->getattr(traito, obj, name);
+                }
                 if (value == NULL) {
                     Py_DECREF(old_value);
                     return -1;
